@@ -27,6 +27,7 @@ CONSTANTS
     BValid(_),  \* body is well-formed for its media type
     BUid(_),    \* UID of a body ("" = none / media type without UIDs)
     BKind(_),   \* "ics" | "vcf" | "other"
+    DefaultKind(_), \* kind with which a start with --defaults creates the slot if absent ("" = not a default collection)
     PropOK(_,_) \* PropOK(kind, p): property p is settable on a collection of that kind
 
 NoUid == ""
@@ -128,6 +129,20 @@ DeleteCollOutcome(st, rq) ==
     ELSE MustSucceed([colls |-> Drop(st.colls, c),
                       store |-> Drop(st.store, c),
                       props |-> Drop(st.props, c)])
+
+\* A (re)start of the server.  Without --defaults nothing changes; with --defaults the
+\* default calendar / addressbook are created *if absent* (empty, with their kind) and an
+\* existing collection at a default path - whatever its kind, storage or contents - is left
+\* exactly as it is.
+RestartOutcome(st, defaults) ==
+    IF ~defaults THEN MustSucceed(st)
+    ELSE LET new == {c \in Coll : DefaultKind(c) # "" /\ ~Exists(st, c)} IN
+         MustSucceed([colls |-> [c \in DOMAIN st.colls \cup new |->
+                                    IF c \in new THEN DefaultKind(c) ELSE st.colls[c]],
+                      store |-> [c \in DOMAIN st.colls \cup new |->
+                                    IF c \in new THEN EmptyFn ELSE st.store[c]],
+                      props |-> [c \in DOMAIN st.colls \cup new |->
+                                    IF c \in new THEN EmptyFn ELSE st.props[c]]])
 
 \* PROPPATCH: a sequence of instructions  [p, set, v]  (set the property p to v / remove
 \* it), processed in document order (RFC 4918 9.2): a later instruction on the same property
